@@ -918,14 +918,92 @@ func elementRule(tag string, levels int) string {
 type varEnt struct {
 	loc   []int
 	tag   string
-	viols []violT
+	viols []valViol
+}
+
+// valViol: one validator error of a Var call: its tag and the value it reports (e.Value())
+type valViol struct {
+	tag string
+	val reflect.Value
+}
+
+// varVals runs validator.Var and keeps, per error, the tag and e.Value().
+func varVals(v reflect.Value, tag string) (out []valViol, panicked bool) {
+	defer func() {
+		if p := recover(); p != nil {
+			out, panicked = nil, true
+		}
+	}()
+	err := ownValidator.Var(v.Interface(), tag)
+	if err == nil {
+		return nil, false
+	}
+	var verrs validator.ValidationErrors
+	if errors.As(err, &verrs) {
+		for _, e := range verrs {
+			out = append(out, valViol{e.Tag(), reflect.ValueOf(e.Value())})
+		}
+	}
+	return out, false
+}
+
+// encValShape writes the shape of a reported value as the redaction walk sees it: pointers, interfaces, structs
+// (fields as reflect shows them), slices / arrays, maps (keys as fmt.Sprint prints them, sorted here).
+func encValShape(l *hx.Line, v reflect.Value, depth int) {
+	if !v.IsValid() || depth > 120 {
+		l.Tok("X")
+		return
+	}
+	switch v.Kind() {
+	case reflect.Pointer:
+		if v.IsNil() {
+			l.Tok("Z")
+			return
+		}
+		l.Tok("Q")
+		encValShape(l, v.Elem(), depth+1)
+	case reflect.Interface:
+		if v.IsNil() {
+			l.Tok("N")
+			return
+		}
+		l.Tok("I")
+		encValShape(l, v.Elem(), depth+1)
+	case reflect.Struct:
+		t := v.Type()
+		l.Tok("T").Nat(t.NumField())
+		for i := 0; i < t.NumField(); i++ {
+			f := t.Field(i)
+			ft := f.Type
+			if ft.Kind() == reflect.Pointer {
+				ft = ft.Elem()
+			}
+			l.Str(f.Name).Str(f.Tag.Get("json")).Bool(f.Anonymous).Bool(ft.Kind() == reflect.Struct).Str(f.Tag.Get("validate"))
+			encValShape(l, v.Field(i), depth+1)
+		}
+	case reflect.Slice, reflect.Array:
+		l.Tok("S").Nat(v.Len())
+		for j := 0; j < v.Len(); j++ {
+			encValShape(l, v.Index(j), depth+1)
+		}
+	case reflect.Map:
+		keys := v.MapKeys()
+		sort.Slice(keys, func(a, b int) bool { return fmt.Sprint(keys[a]) < fmt.Sprint(keys[b]) })
+		l.Tok("M").Nat(len(keys))
+		for _, k := range keys {
+			l.Str(fmt.Sprint(k))
+			encValShape(l, v.MapIndex(k), depth+1)
+		}
+	default:
+		l.Tok("X")
+	}
 }
 
 func addVar(tab *[]varEnt, loc []int, tag string, v reflect.Value) {
 	if tag == "" || !v.IsValid() || !v.CanInterface() {
 		return
 	}
-	viols, panicked := varViols("", v, tag)
+	viols, panicked := varVals(v, tag)
 	if panicked {
 		return
 	}
@@ -1220,6 +1298,7 @@ func ruleFor(root reflect.Value, path string) ruleT {
 type fullT struct {
 	path, apath string
 	v           violT
+	val         reflect.Value // e.Value(): the model walks its shape itself (redaction)
 }
 
 func fullErrs(ptr any, t reflect.Type) (out []fullT, ok bool) {
@@ -1249,7 +1328,7 @@ func fullErrs(ptr any, t reflect.Type) (out []fullT, ok bool) {
 		}
 		ap = strings.NewReplacer("[", ".", "]", "").Replace(ap)
 		_ = ns
-		out = append(out, fullT{jp, ap, violOf(jp, e)})
+		out = append(out, fullT{jp, ap, violOf(jp, e), reflect.ValueOf(e.Value())})
 	}
 	return out, true
 }
@@ -1926,7 +2005,8 @@ func emit(id string, c caseT, st *hx.Stats) string {
 		}
 		l.Str(e.tag).Nat(len(e.viols))
 		for _, t := range e.viols {
-			l.Str(t.tag).Strs(t.shows)
+			l.Str(t.tag)
+			encValShape(l, t.val, 0)
 		}
 	}
 	var full []fullT
@@ -1962,6 +2042,7 @@ func emit(id string, c caseT, st *hx.Stats) string {
 	l.Tok("F").Nat(len(full))
 	for _, f := range full {
 		l.Str(f.path).Str(f.apath).Str(f.v.tag).Strs(f.v.shows)
+		encValShape(l, f.val, 0)
 	}
 	// what the type's own Validate() returns (user code: a parameter)
 	var iface [][2]string
